@@ -172,6 +172,8 @@ func c19BurstGen(t *rapid.T) c19Burst {
 type c19CBurst struct {
 	Reqs []speer.ReqSpec `json:"reqs"`
 	Sets [][][2]uint32   `json:"sets"`
+	// Storm: after each request, this many SETTINGS frames that only grow INITIAL_WINDOW_SIZE
+	Storm int `json:"storm,omitempty"`
 }
 
 func c19CBurstRun(c c19CBurst) Outcome {
@@ -207,6 +209,14 @@ func c19CBurstRun(c c19CBurst) Outcome {
 			}
 			sc.SendSettings(kv)
 			_ = sc.Write(rawframe.Append(nil, rawframe.Ping, 0, 0, make([]byte, 8)))
+		}
+		// a run of SETTINGS frames that keep growing the initial window while the next requests are being written:
+		// the read loop rewrites the send windows as often as the write loop opens streams
+		for k := 0; k < c.Storm; k++ {
+			if initWin+97 < 1<<30 {
+				initWin += 97
+			}
+			sc.SendSettings([][2]uint32{{4, initWin}})
 		}
 	}
 	for round := 0; round < 10; round++ {
@@ -264,6 +274,7 @@ func c19CBurstGen(t *rapid.T) c19CBurst {
 	for i := 0; i < n; i++ {
 		c.Reqs = append(c.Reqs, genClientReq(t, fmt.Sprintf("t%d", i), 70000))
 	}
+	c.Storm = rapid.SampledFrom([]int{0, 0, 5, 25}).Draw(t, "storm")
 	k := rapid.IntRange(0, n).Draw(t, "nsets")
 	for i := 0; i < k; i++ {
 		c.Sets = append(c.Sets, c18GenSettings(t, true))
